@@ -66,6 +66,62 @@ theorem snapshots_ok (ops : List Op) :
       exact quiet_of_invL _ h'
     · exact ih _ h' r o p hm
 
+/-- `never_raises`: no lookup of the model ever ends by raising (no KeyError after an uncache race, no
+    parser error): every event of every trace is a request, a return or a cancellation. -/
+theorem never_raises (ops : List Op) (t : Nat) : Item.ev (.raised t) ∉ run ops := by
+  have hl : ∀ (s : St) (t' : Nat) (loc : Loc), Ev.raised t ∉ (s.lookupLoop t' loc).2 := by
+    intro s t' loc
+    unfold lookupLoop
+    split <;> simp
+  have hstep : ∀ (s : St) (op : Op), Ev.raised t ∉ (s.apply op).2 := by
+    intro s op
+    cases op with
+    | lookup loc => simp [apply]
+    | complete d v => simp only [apply]; split <;> simp
+    | uncache loc => simp [apply]
+    | cancel t' =>
+      simp only [apply]
+      cases s.ts[t']? with
+      | none => simp
+      | some k =>
+        simp only []
+        split
+        · simp
+        · cases k.pc <;> simp only [] <;> (try split) <;> simp
+    | step =>
+      simp only [apply, stepHead]
+      split
+      · simp
+      · split
+        · simp
+        · split
+          · simp
+          · rename_i _ _ k _ _
+            unfold stepTask
+            simp only []
+            split
+            · cases k.pc <;> simp
+            · cases hpc : k.pc with
+              | done => simp
+              | init => exact hl _ _ _
+              | waitEvt e => exact hl _ _ _
+              | waitDl d e =>
+                simp only []
+                split
+                · simp
+                · exact hl _ _ _
+  suffices H : ∀ s, Item.ev (.raised t) ∉ runFrom s ops from H _
+  induction ops with
+  | nil => intro s; simp [runFrom]
+  | cons op rest ih =>
+    intro s hm
+    simp only [runFrom, List.cons_append, List.mem_cons, List.mem_append, List.mem_map, reduceCtorEq, false_or,
+      Item.ev.injEq] at hm
+    rcases hm with ⟨ev, h1, h2⟩ | hm | hm
+    · subst h2; exact hstep s op h1
+    · simp [St.snap] at hm
+    · exact ih _ hm
+
 /-- F18a's witness on the model: lookup A, lookup B, cancel A — B re-fetches, later lookups share B's
     outcome, every lookup ends; the whole trace is accepted by the judge (non-vacuity of the
     theorems above: the trace contains a cancellation of the marker's owner, a re-fetch, a waiter) -/
